@@ -43,7 +43,7 @@ Lemma lvl_push_newline f o ind : os_level (os_push_newline f o ind) = os_level o
 Proof. unfold os_push_newline. destruct ind as [[n|]|]; reflexivity. Qed.
 Lemma lvl_push_string f o s : os_level (os_push_string f o s) = os_level o.
 Proof.
-  unfold os_push_string. destruct (splitlines s) as [|l0 ls]; [reflexivity|].
+  unfold os_push_string. destruct (split_crlf s) as [|l0 ls]; [reflexivity|].
   assert (G : forall ls o', os_level (fold_left (fun o'' l => os_push (os_push_newline f o'' (Some None)) l) ls o') = os_level o').
   { induction ls0 as [|l ls0 IH]; intros o'; cbn [fold_left]; [reflexivity|]. rewrite IH. unfold os_push.
     rewrite lvl_push_gen. apply lvl_push_newline. }
